@@ -90,6 +90,8 @@ def scripts_of(case):
 
 
 def check_case(case):
+    if case.get('soak'):
+        return check_soak(case)
     flags = [f for i, f in enumerate(FLAGS) if case['fb'] >> i & 1]
     if 'CLEANSTACK' in flags and 'P2SH' not in flags:
         flags.append('P2SH')
@@ -204,6 +206,76 @@ def t_raw(ctx):
     ctx.hyp(s_raw(), ctx.n(1500, 20000))
 
 
+def t_limits(ctx):
+    """the limits the captured state must respect, approached from both sides through EVERY push encoding and then hit by a
+    failing opcode: elements of 519..522 and 600 bytes via direct-length-impossible / PUSHDATA1 (<=255) / PUSHDATA2 / PUSHDATA4;
+    999..1001 stack items then an error; 200..202 counted operations then an error (deterministic, all tiers)"""
+    fails = ['6a', 'ff', '8b', '75757575', '6b6b6b6b6c', 'ba']          # RETURN, invalid, 1ADD on a long element, underflow, alt, undefined
+    k = 0
+    for n in (75, 76, 255, 256, 519, 520, 521, 522, 600, 4000):
+        data = bytes((n + i) % 251 for i in range(n))
+        encs = [b'\x4d' + n.to_bytes(2, 'little') + data, b'\x4e' + n.to_bytes(4, 'little') + data]
+        if n <= 255:
+            encs.append(b'\x4c' + bytes([n]) + data)
+        if n <= 75:
+            encs.append(bytes([n]) + data)
+        for e in encs:
+            for f in fails:
+                for mode, fb in ((0, 0), (0, 1), (3, 0), (1, 1)):
+                    k += 1
+                    if k % ctx.nshards == ctx.shard:
+                        ctx.run({'fb': fb, 'variant': k % 64, 'mode': mode, 'idxsel': 0, 'a': '51', 'b': (e + bytes.fromhex(f)).hex()})
+                        ctx.run({'fb': fb, 'variant': k % 64, 'mode': 0, 'idxsel': 0, 'a': e.hex(), 'b': f})
+    for items in (998, 999, 1000, 1001):
+        for grow in ('76', '6e', '6f', '7d', '00', '51', '6b', '82', '74'):        # DUP 2DUP 3DUP TUCK push push TOALT SIZE DEPTH
+            for f in fails:
+                k += 1
+                if k % ctx.nshards == ctx.shard:
+                    ctx.run({'fb': 0, 'variant': k % 64, 'mode': 0, 'idxsel': 0, 'a': '51' * 3, 'b': '51' * (items - 3) + grow + grow + f})
+    for ops in (199, 200, 201, 202):
+        for f in fails:
+            k += 1
+            if k % ctx.nshards == ctx.shard:
+                ctx.run({'fb': 0, 'variant': k % 64, 'mode': 0, 'idxsel': 0, 'a': '51', 'b': '61' * ops + f})
+                ctx.run({'fb': 0, 'variant': k % 64, 'mode': 0, 'idxsel': 0, 'a': '51', 'b': '61' * (ops - 20) + '00' + '51' * 20 + '60' + '0114' + 'ae' + f})
+    if ctx.shard == 0:
+        ctx.exhaustive.append('element sizes {75,76,255,256,519..522,600,4000} x every push encoding x 6 failing continuations x 4 modes; '
+                              '998..1001 items x 9 growing opcodes; 199..202 counted operations (with and without a 20-key multisig)')
+
+
+def check_soak(case):
+    """N successful signature checks with N DISTINCT signatures in ONE process (pay-to-pubkey inputs signed with the library's own
+    key object), interleaved with failing ones: whatever the interpreter keeps between verifications (caches, counters,
+    pools) never turns into a foreign exception, at any size"""
+    from bitcoin.core.script import SignatureHash, OP_CHECKSIG
+    from bitcoin.wallet import CBitcoinSecret
+    key = CBitcoinSecret.from_secret_bytes(bytes([case.get('k', 7)]) * 32)
+    spk = CScript([key.pub, OP_CHECKSIG])
+    okc = 0
+    for i in range(case['start'], case['start'] + case['n']):
+        tx = CMutableTransaction([CMutableTxIn(CMutableOutPoint(b'\x05' * 32, i % 7))], [CMutableTxOut(i, CScript([OP_1]))], i)
+        sig = key.sign(SignatureHash(spk, tx, 0, 1)) + b'\x01'
+        for ssig, want in ((CScript([sig]), True), (CScript([sig[:-2] + b'\x00\x01']) if i % 50 == 0 else None, None)):
+            if ssig is None:
+                continue
+            try:
+                VerifyScript(ssig, spk, tx, 0, set())
+                okc += 1
+            except ValidationError:
+                if want:
+                    raise Violation('soak/valid-rejected', 'valid pay-to-pubkey spend number %d in this process was rejected' % (i - case['start']))
+            except Exception as e:
+                raise unexpected('soak/verify', e, 'after %d successful verifications in this process' % okc)
+    return {'nt': True, 'evals': case['n'], 'cls': ['soak']}
+
+
+def t_soak(ctx):
+    n = ctx.n(4500, 70000)
+    ctx.run({'soak': True, 'start': ctx.shard * 10 ** 6, 'n': n, 'k': 7 + ctx.shard})
+    if ctx.shard == 0:
+        ctx.exhaustive.append('%d distinct valid signature checks in one process (plus a failing one every 50)' % n)
+
+
 # ------------------------------------------------------------------ Atheris campaigns
 def seed_inputs():
     out = [b'', bytes(5)]
@@ -295,4 +367,4 @@ def replay_case(case):
     return check_trunc(case)
 
 
-TASKS = [('fuzz', (t_fuzz, lambda tier: 8 if tier == 'quick' else 16)), ('truncations', (t_trunc, 6)), ('raw', (t_raw, 2))]
+TASKS = [('fuzz', (t_fuzz, lambda tier: 8 if tier == 'quick' else 16)), ('truncations', (t_trunc, 6)), ('raw', (t_raw, 2)), ('limits', (t_limits, 4)), ('soak', (t_soak, 1))]
